@@ -323,7 +323,10 @@ def exec_scenario(sc, wd, plan=None, keep=False, real_lli=False, restart=False, 
         script["wait"] = "hup"
     elif order == "parent_first":
         script["wait"] = "in"
-    env = {"PATH": bindir + ":" + SYSTEM_PATH}
+    # every run owns its temporary directory: runs of different workers must not be
+    # able to meet in /tmp (only the overlap job shares one, on purpose)
+    os.makedirs(os.path.join(wd, ".tmp"), exist_ok=True)
+    env = {"PATH": bindir + ":" + SYSTEM_PATH, "TMPDIR": os.path.join(wd, ".tmp")}
     env.update(sc["env"])
     env["VERIF_STUB_SCRIPT"] = ",".join("%s=%s" % (k, v) for k, v in sorted(script.items()))
     env["VERIF_STUB_MARKER"] = os.path.join(wd, "marker")
@@ -1139,7 +1142,7 @@ def _overlap_job(args):
     seen = {}
     for c, d in viol:
         seen.setdefault(c, d)
-    return {"violations": [{"class": c, "detail": d, "scenario": sc_json(a), "plan": [], "fault": "overlap", "overlap": [sc_json(a), sc_json(b)], "index": i}
+    return {"violations": [{"class": c, "detail": d, "scenario": sc_json(a), "plan": [], "fault": "overlap", "overlap": [sc_json(a), sc_json(b)], "index": i, "seed": seed}
                            for c, d in seen.items()], "runs": 4, "gate_reached": reached}
 
 
@@ -1252,12 +1255,18 @@ def minimise(v):
 
 def _min_job(v):
     set_min_budget()
-    m, ok = minimise(v)
+    if v.get("fault") == "overlap":
+        # a pair of invocations under one fixed schedule: replayed from its seed and index
+        m, ok = v, False
+    else:
+        m, ok = minimise(v)
     sc = m["scenario"]
     record = {"engine": "clisim", "scenario": sc, "plan": m["plan"], "fault": m.get("fault"),
               "run_seed": "%s-%s" % (sha(json.dumps(sc, sort_keys=True, default=str)), sha(json.dumps(m["plan"]))[:6]),
               "observed": {"class": m["class"], "detail": m["detail"]}, "minimised": ok,
               "argv": " ".join(["penne"] + argv_of(sc_from_json(sc))[1:])}
+    if v.get("fault") == "overlap":
+        record["overlap"] = {"seed": v["seed"], "index": v["index"], "scenarios": v["overlap"]}
     summary = "%s: %s\n  scenario %s, argv: %s\n  fault plan: %s" % (m["class"], m["detail"][:400], sc.get("name"), record["argv"], m["plan"])
     return Finding(PROP, m["class"], record, signature=m["class"], summary=summary)
 
@@ -1409,6 +1418,15 @@ def run(tier, seed):
 
 def replay(record):
     disable_aslr()
+    if record.get("overlap"):
+        res = _overlap_job((record["overlap"]["seed"], record["overlap"]["index"]))
+        for v in res["violations"]:
+            print("replay: %s: %s" % (v["class"], v["detail"][:400]))
+        if any(v["class"] == record["observed"]["class"] for v in res["violations"]):
+            print("VIOLATION property=%s replay=%s" % (PROP, record.get("_path", "?")))
+            return 1
+        print("replay: recorded class %s not reproduced" % record["observed"]["class"])
+        return 1 if res["violations"] else 0
     sc = sc_from_json(record["scenario"])
     plan = record["plan"]
     root = os.path.join(work_root(), "C18", "replay-%d" % os.getpid())
